@@ -339,6 +339,22 @@ def run_case(case, tier):
                 stats["helper_checks"] += 1
                 if not (close(h.kcals, d.kcals) and close(h.fat, d.fat) and close(h.protein, d.protein) and list(h.units) == list(d.units)):
                     bad("helper_differs_from_in_units", "%s%s differs from in_units%r" % (helper, s, tgt), helper=helper)
+            # the helper that takes the food's energy density and nutrient contents as arguments (documented for billion kcals /
+            # thousand tons per month or each month): with unit ratios it is the per-person conversion, and it is linear in each ratio
+            if s in (" each month", " per month"):
+                tgt = ("kcals per person per day", "grams per person per day", "grams per person per day")
+                for kr, fr, pr in ((1.0, 1.0, 1.0), (rnd.uniform(0.2, 5), rnd.uniform(0.2, 5), rnd.uniform(0.2, 5))):
+                    stats["helper_checks"] += 1
+                    try:
+                        h = need.in_units_kcals_grams_grams_per_person_from_ratio(kr, fr, pr)
+                    except Exception as err:  # noqa: BLE001
+                        bad("helper_differs_from_in_units", "in_units_kcals_grams_grams_per_person_from_ratio%s raised %r" % (s, err), helper="from_ratio")
+                        continue
+                    want = (kd * kr, fd * kr * fr, pd_ * kr * pr)
+                    got = (np.ravel(h.kcals)[0], np.ravel(h.fat)[0], np.ravel(h.protein)[0])
+                    if not all(close(g, w) for g, w in zip(got, want)) or [u.replace(s, "") for u in (h.kcals_units, h.fat_units, h.protein_units)] != list(tgt):
+                        bad("helper_differs_from_in_units", "monthly requirement%s through in_units_kcals_grams_grams_per_person_from_ratio(%.4g, %.4g, %.4g) gives %s %s, expected the daily requirement per person x the ratios %s" % (
+                            s, kr, fr, pr, [float("%.8g" % g) for g in got], [h.kcals_units, h.fat_units, h.protein_units], [float("%.8g" % w) for w in want]), helper="from_ratio")
     finally:
         conv.__dict__.clear()
         conv.__dict__.update(saved)
